@@ -13,9 +13,19 @@
    interleaving (channel operations, sync.Cond, WaitGroup and locks not taken through pkg/locking are outside
    the machine; nestings never exercised by the workloads are not in E).  The accounting invariants after
    quiescence (Oracles/ConcCheck.v: final_state_kinds, the predicates of C01/C03) are evaluated on the final
-   state of every stress run as validation, not proof. *)
-From Coq Require Import List NArith Bool.
+   state of every stress run as validation, not proof.
+
+   Atomicity (theorems 9-16): a second abstract machine (Conc/Atomic.v: threads, ONE reader/writer lock, the variable
+   it protects, invocations made of lock / unlock / read / check / store instructions, arbitrary interleaving).
+   If every invocation keeps the lock discipline and has no SPLIT critical section (lock released and taken again in
+   write mode inside one invocation), every reachable value of the variable is the result of some serial order of the
+   invocations: no lost update, a guard checked inside the section is an invariant.  `has_split` is computed on
+   the real code by the lock wrapper's critical-section monitor on every run; the split sections of the unchanged
+   tree are a reviewed baseline (corpus/conc_split_baseline.json); a new one is kind 1420.  Unbounded theorem,
+   coverage-bounded input, as for the lock order. *)
+From Coq Require Import List ZArith NArith Bool.
 From YK Require Import Conc.LockOrder Conc.LockOrderProofs Conc.OracleTie Oracles.ConcCheck.
+From YK Require Import Conc.Atomic Conc.AtomicProofs Conc.AtomicTie.
 Import ListNotations.
 
 (* 1. The boolean check run on the traced relation is sound: it accepts only relations without a cycle. *)
@@ -78,3 +88,75 @@ Theorem c14_cyclic_can_deadlock :
   acyclic (untag badE) = false /\ exists s, reachable badE one_role excl_grant s /\ wait_cycle s [0; 1]%nat.
 Proof. exact cyclic_can_deadlock. Qed.
 Print Assumptions c14_cyclic_can_deadlock.
+
+
+(* ---------- atomicity of read-modify-write operations ---------- *)
+
+(* 9. Lock discipline + no split critical section => serialisable: in every reachable state in which no writer is
+   inside its section, the protected variable is the result of executing a list l of invocations one after the other,
+   l being an interleaving of prefixes of the threads' programs (any number of threads, any schedule). *)
+Theorem c14_nosplit_serializable : forall x0 progs, disciplined progs -> forall sched,
+  let c := run sched (init x0 progs) in
+  writer c = None ->
+  exists l, xv c = serial l x0 /\ forall t, exists k, proj t l = firstn k (progs t).
+Proof. exact nosplit_serializable. Qed.
+Print Assumptions c14_nosplit_serializable.
+
+(* 10. ... and when all threads have finished, l contains every invocation of every thread in the thread's own order:
+   the final value is the value of SOME serial order of all operations. *)
+Theorem c14_nosplit_final : forall x0 progs, disciplined progs -> forall sched,
+  let c := run sched (init x0 progs) in
+  finished c -> exists l, xv c = serial l x0 /\ forall t, proj t l = progs t.
+Proof. exact nosplit_final. Qed.
+Print Assumptions c14_nosplit_final.
+
+(* 11. No lost update: increments and decrements, each inside one write-mode section, from any number of threads
+   under any schedule: final value = initial value + sum of all deltas. *)
+Theorem c14_atomic_increments_sum : forall x0 (ps : list (list Z)) sched,
+  let c := run sched (init x0 (progs_of (map (map inc) ps))) in
+  finished c -> xv c = (x0 + sumZ (concat ps))%Z.
+Proof. exact atomic_increments_sum. Qed.
+Print Assumptions c14_atomic_increments_sum.
+
+(* 12. A predicate that every invocation preserves when executed alone holds whenever no writer is inside its section. *)
+Theorem c14_nosplit_invariant : forall (P : Z -> Prop) x0 progs, disciplined progs ->
+  P x0 -> (forall t o x, In o (progs t) -> P x -> P (op_fun o x)) ->
+  forall sched, let c := run sched (init x0 progs) in writer c = None -> P (xv c).
+Proof. exact nosplit_invariant. Qed.
+Print Assumptions c14_nosplit_invariant.
+
+(* 13. The guard `x + d <= max` checked inside the section that stores x + d is an invariant `x <= max` (guarded
+   increments, unguarded decrements, readers; any number of threads, any schedule). *)
+Theorem c14_atomic_guard_invariant : forall mx x0 progs, (x0 <= mx)%Z ->
+  (forall t o, In o (progs t) -> (exists d, o = ginc mx d) \/ (exists d, (0 <= d)%Z /\ o = inc (- d)) \/ o = peek) ->
+  forall sched, let c := run sched (init x0 progs) in writer c = None -> (xv c <= mx)%Z.
+Proof. exact atomic_guard_invariant. Qed.
+Print Assumptions c14_atomic_guard_invariant.
+
+(* 14. The hypothesis matters (1): new value computed under the READ lock, stored under the write lock (the seeded change
+   C14-SEED2 to Queue.TryIncAllocatedResource).  Every access is under the lock, the invocation has a split section,
+   and a two-thread schedule ends with 2 although both serial orders give 3: an increment is lost. *)
+Theorem c14_split_lost_update_refuted :
+  (forall d, locked None (sinc d) = true /\ has_split (sinc d) = true) /\
+  exists sched, let c := run sched (init 0 (two (sinc 1) (sinc 2))) in
+    finished c /\ xv c = 2%Z /\
+    serial [(0%nat, sinc 1); (1%nat, sinc 2)] 0 = 3%Z /\ serial [(1%nat, sinc 2); (0%nat, sinc 1)] 0 = 3%Z.
+Proof. exact (conj sinc_disciplined_but_split split_lost_update_refuted). Qed.
+Print Assumptions c14_split_lost_update_refuted.
+
+(* 15. The hypothesis matters (2): guard checked under the read lock, increment under the write lock (check-then-act: the
+   shape of Queue.TryIncAllocatedResource on the unchanged tree, harmless there only as long as ONE goroutine calls it):
+   two threads both pass the check against the maximum 10 and the variable ends at 12. *)
+Theorem c14_split_guard_refuted :
+  (forall mx d, locked None (cinc mx d) = true /\ has_split (cinc mx d) = true) /\
+  exists sched, let c := run sched (init 0 (two (cinc 10 6) (cinc 10 6))) in
+    finished c /\ xv c = 12%Z /\ ~ (xv c <= 10)%Z.
+Proof. exact (conj cinc_disciplined_but_split split_guard_refuted). Qed.
+Print Assumptions c14_split_guard_refuted.
+
+(* 16. The oracle of the conc engine is the hypothesis: a run on which kind 1420 is not reported showed no split
+   critical section outside the reviewed baseline (and a split section outside the baseline is always reported). *)
+Theorem c14_oracle_no_new_split : forall c, ~ In 1420%N (conc_check_case c) ->
+  forall s, In s (cc_splits c) -> In s (cc_baseline c).
+Proof. exact oracle_no_new_split. Qed.
+Print Assumptions c14_oracle_no_new_split.
